@@ -19,7 +19,7 @@ from simkit.rng import Streams
 PROPERTY = 'C12'
 ENGINE = 'E2'
 LEVEL = 'fault_enumeration'
-RUN_TIMEOUT_S = 1200.0
+RUN_TIMEOUT_S = 2400.0
 REPO = None
 
 
@@ -675,7 +675,7 @@ def generate_enum(seed, tier='quick', index=0):
     spec = gen_settings.gen_settings_spec(rng, max_n=2 if tier == 'quick' else 3)
     return {'property': PROPERTY, 'engine': ENGINE, 'seed': seed, 'settings': [spec], 'phases': [],
             'env_seed': s.int_seed('env'), 'config': 'enum', 'enum': {'site': index % 3,
-                                                                       'stride_min_points': 24 if tier == 'quick' else 100}}
+                                                                       'stride_min_points': 24 if tier == 'quick' else 60}}
 
 
 WRITE_FUNCS = ('_write_to_cache', 'get_best_assignment_manager', 'iter_n_sources_targets', 'get_agg_matrix',
@@ -694,7 +694,7 @@ def generate_bridge(seed, tier='quick', index=0):
     spec = gen_dsg.add_conn_choice(rng, spec, p_group=0.0, max_side=2)
     return {'property': PROPERTY, 'engine': ENGINE, 'seed': seed, 'settings': [], 'graphs': [spec], 'phases': [],
             'env_seed': s.int_seed('env'), 'config': 'bridge',
-            'bridge': {'n_random': 6 if tier == 'quick' else 40, 'all_write_points': True}}
+            'bridge': {'n_random': 6 if tier == 'quick' else 30, 'all_write_points': True}}
 
 
 def _execute_bridge(trace):
@@ -717,7 +717,7 @@ def _execute_bridge(trace):
         near = sorted({m for n in wpts for m in (n - 1, n, n + 1) if 1 <= m <= K})
         rng = random.Random(trace['env_seed'])
         pts = sorted(set(near) | {rng.randint(1, K) for _ in range(trace['bridge']['n_random'])} | {1, K})
-        cap = 30 if trace['bridge']['n_random'] <= 6 else 300
+        cap = 30 if trace['bridge']['n_random'] <= 6 else 100
         if len(pts) > cap:
             keep = [p for p in near if p in pts][:cap // 2]  # prefer the points in and around the cache functions
             rest = [p for p in pts if p not in keep]
